@@ -284,6 +284,24 @@ func main() {
 			}
 		}
 		out.close()
+	case "parse": // <seed> <n> <outdir>
+		seed, _ := strconv.ParseUint(os.Args[2], 10, 64)
+		n, _ := strconv.Atoi(os.Args[3])
+		out := openOut(os.Args[4])
+		for i := 0; i < n; i++ {
+			r := NewRng(seed, uint64(i))
+			src, tag := genParseCase(r)
+			out.count(tag)
+			res := implParse(src)
+			c10 := ""
+			if tag == "wellformed" || tag == "padded" {
+				if !strings.HasPrefix(res, "OK") {
+					c10 = "well-formed expression rejected: " + res
+				}
+			}
+			out.put("parse "+encStr(src), res, verdict("C10", c10), verdict("C08", panicOnly(res)))
+		}
+		out.close()
 	case "code": // <seed> <n> <outdir>
 		seed, _ := strconv.ParseUint(os.Args[2], 10, 64)
 		n, _ := strconv.Atoi(os.Args[3])
